@@ -1,4 +1,5 @@
 import H2V.Spec.Wire
+import H2V.Spec.Verdict
 import H2V.Model.Basic
 /-
   Monitor driver: `mon_cn <kind> <payload>` lines built by tools/props.py from the trace of the REAL
@@ -28,6 +29,8 @@ def parseFr (s : String) : Option Fr :=
   match s.splitOn ":" with
   | ["D", sid, fl, len] => do some (.data (← sid.toNat?) (← fl.toNat?) (← len.toNat?) (← len.toNat?))
   | ["D", sid, fl, len, dl] => do some (.data (← sid.toNat?) (← fl.toNat?) (← len.toNat?) (← dl.toNat?))
+  | "H" :: _ :: _ :: _ :: "!hpack" :: _ => some .other      -- a block the HPACK decoder rejected
+  | "PP" :: _ :: _ :: _ :: "!hpack" :: _ => some .other
   | ["H", sid, fl, _len, f] => do some (.headers (← sid.toNat?) (← fl.toNat?) (parseFieldsEq f))
   | ["PP", sid, pr, _len, f] => do some (.pushPromise (← sid.toNat?) (← pr.toNat?) (parseFieldsEq f))
   | ["Hfrag", sid, _, _] => do some (.fragment (← sid.toNat?))
@@ -54,7 +57,7 @@ def handleWire (w : WSt) (ws : List String) : Option (WSt × String) :=
     some ({ role := if role == "server" then .server else .client }, "ok")
   | ["mon_cn", "tx", f] =>
     match parseFr f with
-    | some fr => let (w', vs) := tx w fr; some (w', showViols vs)
+    | some fr => let (w', vs) := tx w fr; some (H2V.Spec.Verdict.observe w' fr, showViols vs)
     | none => none
   | ["mon_cn", "rx", f] =>
     match parseFr f with
@@ -66,6 +69,8 @@ def handleWire (w : WSt) (ws : List String) : Option (WSt × String) :=
     | _, _ => none
   | ["mon_cn", "exempt_open", sid] => sid.toNat?.map fun s => (exemptOpen w s, "ok")
   | ["mon_cn", "target", n] => n.toNat?.map fun n => (apiTarget w n, "ok")
+  | ["mon_cn", "expect", cls, sid] => sid.toNat?.map fun s => (H2V.Spec.Verdict.expect w cls s, "ok")
+  | ["mon_cn", "verdict"] => let (w', vs) := H2V.Spec.Verdict.verdict w; some (w', showViols vs)
   | ["mon_cn", "quiescent"] => some (w, showViols (quiescent w))
   | ["mon_cn", "delivered", sid, what] =>
     match sid.toNat? with
